@@ -16,7 +16,7 @@ RULE = (
     "is free; with block=True submit() returns for every count value and is parked only while the model queue holds >= count entries. "
     "Plus a Hypothesis RuleBasedStateMachine (step-wise engine): rules submit / complete any in-flight job / cancel any future / advance "
     "virtual time, with the queue model compared to what reached the delegate after EVERY rule. "
-    "Non-trivial = more submissions than count with a completion or queued-cancel interleaved, or a completion landing inside the "
+    "Two of the catalogue programs are swept once more with every bytecode instruction of throttle.py as a scheduling point. Non-trivial = more submissions than count with a completion or queued-cancel interleaved, or a completion landing inside the "
     "hand-over loop iteration. Distinct = digest of the case."
 )
 ASSUMPTIONS = [
@@ -102,6 +102,10 @@ def catalog():
         "prog": {"setup": [build(man, None, True)],
                  "threads": [[sub("f0"), sub("f1")], [sub("f2")]],
                  "settle": 1, "final": [["runall", "ex"], ["sleep", 0.5]]}}
+    # the same small programs with EVERY bytecode instruction of throttle.py as a scheduling point (an update written on one
+    # source line can then be split)
+    for src in ("T3/count1", "T2b/submit-then-completion-count1"):
+        out["instr/" + src.replace("/", "-")] = dict(out[src], instr_points=["throttle.py"])
     return out
 
 
@@ -366,7 +370,9 @@ def run_shard(spec, ctx):
         for name in spec["entries"]:
             ent = cat[name]
             extra = {"count": ent["count"], "block": ent.get("block", False), "entry": name, "max_vtime": 150}
-            progs.sweep(ctx, ent["prog"], name, evaluate, account, double=spec.get("double"), extra=extra)
+            if ent.get("instr_points"):
+                extra["instr_points"] = ent["instr_points"]
+            progs.sweep(ctx, ent["prog"], name, evaluate, account, double=spec.get("double") and not ent.get("instr_points"), extra=extra)
     elif spec["mode"] == "machine":
         import machines
         machines.run_machine(machines.make_throttle_machine, ctx, spec["seed"], spec["n"], spec["steps"])
